@@ -170,7 +170,10 @@ def stepOver (I : Info) (τ : Trace) (U : List Nat) (i : Nat) : Land :=
     let r := (at' τ i1).ret
     let T := nextTemps I τ U f i1
     let j := contLand τ U T i1
-    if τ.size ≤ j then { idx := j, why := .exit, temps := T, pre := i1 - i }
+    if r = 0 && retPos τ i1 < j then
+      -- the return address lies outside the executable and the function returns before any temporary is reached
+      { idx := retPos τ i1, why := if retPos τ i1 < τ.size then .out else .exit, temps := T, pre := i1 - i }
+    else if τ.size ≤ j then { idx := j, why := .exit, temps := T, pre := i1 - i }
     else
       if pcAt τ j = r && midLine I τ j then
         let l := stepIn I τ j
